@@ -380,6 +380,8 @@ type changeSeq struct {
 	Reduced bool // run one scenario per priced function instead of the whole set
 }
 
+var c16Toggle int
+
 func (c *ctx) chargesAfter(u *universe, seq changeSeq, sizes []int) {
 	// the schedule that must be in force
 	vals, ok := scheduleValues(seq.Init)
@@ -396,10 +398,22 @@ func (c *ctx) chargesAfter(u *universe, seq changeSeq, sizes []int) {
 		c.count(fmt.Sprintf("change/%s", map[bool]string{true: "to-be-accepted", false: "to-be-rejected"}[acc]))
 	}
 	inForce := canonicalSchedule(vals)
+	// every other sequence: its first change reaches the factories between their construction and the creation of their containers
+	c16Toggle++
+	early := 0
+	if len(changes) > 0 && c16Toggle%2 == 0 {
+		early = 1
+		c.count("change/delivered-before-container-creation")
+	}
 	mk := func() *hWorld {
+		u.earlyGas = nil
+		for _, ch := range changes[:early] {
+			u.earlyGas = append(u.earlyGas, cloneGasMap(ch))
+		}
 		w := u.stdWorld(2, 0, cloneGasMap(seq.Init))
+		u.earlyGas = nil
 		u.populate(w)
-		for _, ch := range changes {
+		for _, ch := range changes[early:] {
 			for _, sh := range w.shards {
 				sh.factory.GasScheduleChange(cloneGasMap(ch))
 			}
